@@ -84,6 +84,9 @@ package airgapped
 // naming the dealer instead would be refused by every node once the dealer has answered)
 //@   assert@call Marshal[C11.report.self] istype(v, "requests.DKGProposalConfirmationErrorRequest") && v.(requests.DKGProposalConfirmationErrorRequest).ParticipantId == loc(pid)
 //@   assert@call getParticipantID[C11.report.self] dkgIdentifier == o.DKGIdentifier
+// and only when this machine knows its own number in the round: a machine that has no instance of the round (a step that
+// failed before the instance was stored, a restart without replay) reports nothing rather than blaming participant 0 (C10)
+//@   assert@call Marshal[C10.report.known,C11.report.self] loc(err) == nil
 //@   ensures[C11.report.event] result == nil && old(o.Type) == "state_dkg_commits_await_confirmations" ==> o.Event == "event_dkg_commit_confirm_canceled_by_error"
 //@   ensures[C11.report.event] result == nil && old(o.Type) == "state_dkg_deals_await_confirmations" ==> o.Event == "event_dkg_deal_confirm_canceled_by_error"
 //@   ensures[C11.report.event] result == nil && old(o.Type) == "state_dkg_responses_await_confirmations" ==> o.Event == "event_dkg_response_confirm_canceled_by_error"
